@@ -5,6 +5,8 @@ import RR.Proof.Gated
 import RR.Proof.Verdicts
 import RR.Proof.V2S
 import RR.Proof.Resampler
+import RR.Proof.SinkSrc
+import RR.Proof.Wrap
 
 /-!
 # C09 — block verdicts are truthful
@@ -269,5 +271,59 @@ theorem c09_resampler (I D : Int) (cnt : Int) (w : List Nat) (f : Nat) :
         refine ⟨trivial, Or.inr ⟨by omega, ?_⟩⟩
         have := htk rfl
         simpa using this
+
+/-- Generator sources: with a full output the call changes nothing and waits for room on that output (no
+polling with `Again`); with room it fills exactly the room offered and asks to be called again. -/
+theorem c09_generator_source (G : GenSrc) (s : G.σ) (f : Nat) :
+    let r := genWork G s ⟨[], [⟨f, true⟩]⟩
+    (r.2.produced.getD 0 ⟨[], []⟩).samples.length = f ∧
+    (f = 0 → r.2.verdict = .waitOut 0 1 ∧ r.1 = s) ∧
+    (0 < f → r.2.verdict = .again) := by
+  intro r
+  obtain ⟨h1, h2, _, _, h5, h6⟩ := genWork_spec G s f
+  refine ⟨by rw [h2, genTake_length], fun h => ⟨h5 h, ?_⟩, h6⟩
+  rw [h1, h]; rfl
+
+/-- VectorSink and NullSink: every call consumes the whole read window — also when the VectorSink is full —
+so the wait for one more input sample that they report is truthful (the window is empty after the call),
+and an ended input is drained. -/
+theorem c09_vector_sink (max st : Nat) (w : List Nat) (ts : List Tag) (al : Bool) :
+    let r := vsinkWork max st ⟨[⟨w, ts, al⟩], []⟩
+    r.2.consumed = [w.length] ∧ r.2.verdict = .waitIn 0 1 ∧
+    (r.2.produced.getD 0 ⟨[], []⟩).samples.length ≤ w.length := by
+  intro r
+  obtain ⟨_, h2, h3, _, h5⟩ := vsink_call max st w ts al []
+  refine ⟨h2, h5, ?_⟩
+  rw [h3, List.length_take]; exact Nat.min_le_right _ _
+
+theorem c09_null_sink (w : List Nat) (ts : List Tag) (al : Bool) :
+    let r := nullWork () ⟨[⟨w, ts, al⟩], []⟩
+    r.2.consumed = [w.length] ∧ r.2.verdict = .waitIn 0 1 := by
+  intro r
+  obtain ⟨h1, _, h3⟩ := null_call w ts al
+  exact ⟨h1, h3⟩
+
+/-- FftFilterFloat (a complex FftFilter between two inner streams): when its `eof()` answers true — outer input
+ended and drained, nothing in the inner output stream, less than a batch between the wrapped filter's buffer
+and the inner input stream — and a reader is still there, a further `work()` call takes nothing and delivers
+nothing: a runner that retires the block on that answer loses no sample. Any arithmetic, taps, stream capacity
+and state. -/
+theorem c09_fft_float_eof_sound {α : Type} (o : Dsp.Ops α) (cd : Dsp.Codec α) (taps : List α) (cap : Nat)
+    (toIn toOut : Nat → Nat) (s : WrapSt (Dsp.FftSt α)) (ts : List Tag) (f : Nat)
+    (h : wrapEof (Dsp.fftNeed taps) s ⟨[⟨[], ts, false⟩], [⟨f, true⟩]⟩ = true) :
+    let r := wrapWork (Dsp.fftBlock o cd taps) cap toIn toOut s ⟨[⟨[], ts, false⟩], [⟨f, true⟩]⟩
+    r.2.consumed = [0] ∧ (r.2.produced.getD 0 ⟨[], []⟩).samples = [] :=
+  Dsp.wrap_fft_eof_sound o cd taps cap toIn toOut s ts f h
+
+/-- The derived `eof()` (outer input ended and drained) did not have that property: a state with one sample
+waiting in the inner output stream answers true and then delivers that sample. (The defect repaired by
+`fix:` 88f9b55.) -/
+theorem c09_fft_float_old_eof_unsound :
+    let s : WrapSt (Dsp.FftSt Dsp.GI) := ⟨⟨[], [], [(0, 0)]⟩, ⟨[], []⟩, ⟨[7], []⟩⟩
+    let v : View := ⟨[⟨[], [], false⟩], [⟨4, true⟩]⟩
+    macroEof v = true ∧ wrapEof (Dsp.fftNeed [((1, 0) : Dsp.GI)]) s v = false ∧
+    ((wrapWork (Dsp.fftBlock Dsp.giOps Dsp.giCodec [(1, 0)]) 512 id id s v).2.produced.getD 0 ⟨[], []⟩).samples = [7] := by
+  decide
+
 
 end RR.Props.C09
